@@ -15,6 +15,8 @@
 From KV Require Import Yaml.Fns Yaml.FieldSpec Yaml.TotalityProofs.
 From KV Require Import Glob.PanicSiteTypes Glob.PanicAllow Glob.PanicAllowProofs Gen.PanicSites Gen.C12Findings.
 From KV Require Import Glob.TotalityMore.
+From KV Require Glob.TotalityWalker Glob.TotalityNameRef Res.NameRefProofs Res.NameRefTypes.
+From KV Require Import Glob.ModelPanicMap Glob.ModelPanicMapProofs Gen.C12ModelPanics.
 From KV Require Yaml.Split Yaml.Annot Yaml.Match Yaml.MatchProofs Yaml.MatchTotalProofs Fs.MemFs Fs.DiskFs Fs.DiskFsProofs
      Fs.Loader Res.Resource Res.Labels Res.Namespace Res.Generators Res.NameRef
      Yaml.Walk Yaml.Merge2 Yaml.Merge2Proofs Yaml.Merge3 Yaml.Merge3Proofs Yaml.Fmt Yaml.FmtProofs.
@@ -273,21 +275,58 @@ Theorem C12_total_core_select_referral :
 Proof. exact safe_select_referral. Qed.
 Print Assumptions C12_total_core_select_referral.
 
-(* PARTIAL (owner theorems re-exported). merge2 / merge3 on the generic walker (Yaml/Walk.v, C04 / C15)
-   never run out of their canonical fuel. Panic-freedom is NOT proved: the walker model has one Panic
-   site (appendListNode indexing keys[0] of an empty key list), whose guard (validateKeys never returns
-   an empty list for a non-empty one) is not assembled into a theorem; no input reaching it is known *)
-Theorem C12_merge2_no_diverge_partial :
+(* FULL. merge2 / merge3 on the generic walker (Yaml/Walk.v, C04 / C15): Ok or Err at the canonical fuel,
+   for every schema, option set and documents. Diverge: owner theorems. Panic (Glob/TotalityWalker.v): the
+   only Panic constructor of the walker - appendListNode indexing keys[0] of an empty key list - is dead:
+   validateKeys returns a non-empty list for a non-empty one, every value tuple the associative-list loop
+   visits is non-empty (elementValues / elementPrimitiveValues / mergeValues), and the key list is never
+   empty when that loop runs; the walker itself never panics at ANY fuel *)
+Theorem C12_merge2_no_panic :
   forall (Sc : Type) (sch : Walk.schema Sc) (opts : Walk.wopts) (nonstr : string -> bool) (patch target : option node),
-    Merge2.merge2 sch opts nonstr patch target <> Diverge.
-Proof. exact (@Merge2Proofs.merge2_no_diverge). Qed.
-Print Assumptions C12_merge2_no_diverge_partial.
+    Merge2.merge2 sch opts nonstr patch target <> Panic.
+Proof. exact (@TotalityWalker.merge2_no_panic). Qed.
+Print Assumptions C12_merge2_no_panic.
 
-Theorem C12_merge3_no_diverge_partial :
+Theorem C12_merge3_no_panic :
   forall (Sc : Type) (sch : Walk.schema Sc) (opts : Walk.wopts) (nonstr : string -> bool) (l o u : option node),
-    Merge3.merge3 sch opts nonstr l o u <> Diverge.
-Proof. exact (@Merge3Proofs.merge3_no_diverge). Qed.
-Print Assumptions C12_merge3_no_diverge_partial.
+    Merge3.merge3 sch opts nonstr l o u <> Panic.
+Proof. exact (@TotalityWalker.merge3_no_panic). Qed.
+Print Assumptions C12_merge3_no_panic.
+
+Theorem C12_total_core_merge :
+  forall (Sc : Type) (sch : Walk.schema Sc) (opts : Walk.wopts) (nonstr : string -> bool) (a b c : option node),
+    safe (Merge2.merge2 sch opts nonstr a b) /\ safe (Merge3.merge3 sch opts nonstr a b c).
+Proof.
+  exact (fun Sc sch opts nonstr a b c =>
+           conj (conj (@TotalityWalker.merge2_no_panic Sc sch opts nonstr a b) (@Merge2Proofs.merge2_no_diverge Sc sch opts nonstr a b))
+                (conj (@TotalityWalker.merge3_no_panic Sc sch opts nonstr a b c) (@Merge3Proofs.merge3_no_diverge Sc sch opts nonstr a b c))).
+Qed.
+Print Assumptions C12_total_core_merge.
+
+(* nameReferenceTransformer.Transform (Res/NameRef.v, C03; Glob/TotalityNameRef.v). The model has exactly two
+   Panic sources: (P1) Resource.PrevIds on CSV annotations of unequal length = finding F7a; (P2) FieldSetter with
+   an empty StringValue = a selected candidate whose name is empty (no finding: GetValidatedMetadata rejects an
+   empty metadata.name when a resource is loaded).
+     - never Diverge, no hypothesis;
+     - P1 anywhere in the list IS a panic (exact);
+     - without P1 and P2 the transformer is safe, for every rule table that does not write the identity fields
+       ([rule_ok]; the generated table satisfies it: C03Facts.gen_rule_ok). PARTIAL in that P2 is excluded by the
+       hypothesis on names rather than characterised (which candidate gets selected is data dependent) *)
+Theorem C12_total_core_nameref_transform :
+  forall cs nonstr rules m,
+    NameRef.nameref_transform cs nonstr rules m <> Diverge /\
+    ((exists r, In r m /\ Resource.prev_ids r = Panic) -> NameRef.nameref_transform cs nonstr rules m = Panic) /\
+    ((forall b f, In b rules -> In f (NameRefTypes.nb_referrers b) -> NameRefProofs.rule_ok f) ->
+     (forall r, In r m -> Resource.prev_ids r <> Panic) ->
+     (forall r, In r m -> Resource.get_name (Resource.r_node r) <> "") ->
+     safe (NameRef.nameref_transform cs nonstr rules m)).
+Proof.
+  exact (fun cs nonstr rules m =>
+           conj (TotalityNameRef.nameref_transform_no_diverge cs nonstr rules m)
+                (conj (TotalityNameRef.nameref_transform_panics_on_bad_csv cs nonstr rules m)
+                      (TotalityNameRef.nameref_transform_safe cs nonstr rules m))).
+Qed.
+Print Assumptions C12_total_core_nameref_transform.
 
 (* FULL since /repo fix d64b8e2 (owner theorem re-exported). the formatter (Yaml/Fmt.v, C20) returns Ok on every
    node, schema and path, whatever the sort function; the model has no fuel, so it cannot Diverge *)
@@ -296,6 +335,29 @@ Theorem C12_total_core_fmt_node :
     exists n', Fmt.fmt_node nonstr srt kind api s p n = Ok n'.
 Proof. exact FmtProofs.fmt_no_panic. Qed.
 Print Assumptions C12_total_core_fmt_node.
+
+(* ---- (1c) every Panic constructor of every model file is accounted for --------------------------------
+   Gen/C12ModelPanics.v lists (file, definition, ordinal) of every producer of the outcome Panic in the model
+   files of the framework (integrated pipeline of Props/C12P.v included); Glob/ModelPanicMap.v says for each:
+   listed finding (class id checked against findings.d), repaired defect (class checked against the fixed: lines),
+   dead code (with the theorem that proves it), or outside the build. On the current tree: PrevIds x3 and
+   FromResourceSlice x2 are the two remaining finding classes the models reproduce (PIPE_panic_prev_ids_witness,
+   PIPE_panic_hash_clash_witness); IsImageMatched is repaired; the walker's keys[0], CleanedAbs x3 and the
+   name-reference setter x2 are dead; one producer belongs to `kustomize edit`. *)
+Theorem Gen_model_panics_accounted :
+  forall k, In k gen_model_panics -> exists d, mp_lookup k = Some d.
+Proof. exact model_panics_accounted_spec. Qed.
+Print Assumptions Gen_model_panics_accounted.
+
+Theorem Gen_model_panic_classes_listed :
+  forallb (fun c => str_in c gen_c12_finding_classes) mp_finding_classes = true /\
+  forallb (fun c => str_in c gen_c12_fixed_classes) mp_fixed_classes = true.
+Proof. exact model_panic_classes_listed. Qed.
+Print Assumptions Gen_model_panic_classes_listed.
+
+Theorem Gen_model_panic_map_stale_now : mp_stale gen_model_panics = [].
+Proof. exact model_panic_map_not_stale. Qed.
+Print Assumptions Gen_model_panic_map_stale_now.
 
 (* ---- (2) explicit panic / fatal / exit / unchecked-assertion sites ---------------------------- *)
 
